@@ -3277,7 +3277,7 @@ derive_cbor_value(const uint8_t **bp, size_t rem_len) {
     (*bp)++;
     return value;
   }
-  if (rem_len < 4)
+  if (rem_len < 5)
     return (uint32_t)-1;
   value = **bp << 24;
   (*bp)++;
